@@ -33,6 +33,7 @@ var c16ParkScenarios = []string{
 	"client connection: Close while an event handler is running",
 	"server connection: Close while a request handler is running",
 	"client connection: Close while a Send is in progress and a response is being delivered",
+	"server: Close while a request handler of one of its connections is running",
 }
 
 func runC16Park(res *lp.Result) {
@@ -78,11 +79,12 @@ func runC16ParkChild(res *lp.Result) {
 	res.Count("interleavings")
 	viol := func(what, detail string) { res.Add(lp.Finding{Kind: "violation", What: what, Input: id, Impl: detail}) }
 	v := primitive.ProtocolVersion4
+	evSent := make(chan struct{})
 	evEntered, evRelease := make(chan struct{}), make(chan struct{})
 	rqEntered, rqRelease := make(chan struct{}), make(chan struct{})
 	var evOnce, rqOnce sync.Once
 	var handlers []client.RequestHandler
-	if i == 3 {
+	if i == 3 || i == 5 {
 		handlers = append(handlers, func(request *frame.Frame, conn *client.CqlServerConnection, ctx client.RequestHandlerContext) *frame.Frame {
 			if _, ok := request.Body.Message.(*message.Query); ok {
 				rqOnce.Do(func() { close(rqEntered); <-rqRelease })
@@ -95,7 +97,14 @@ func runC16ParkChild(res *lp.Result) {
 	cl := newClient(addr, nil, primitive.CompressionNone, 20*time.Second)
 	if i == 2 {
 		cl.EventHandlers = []client.EventHandler{func(event *frame.Frame, conn *client.CqlClientConnection) {
-			evOnce.Do(func() { close(evEntered); <-evRelease })
+			evOnce.Do(func() {
+				close(evEntered)
+				<-evRelease
+				// a handler uses the connection it is given (re-registers, queries the changed node …): with Close under way the
+				// send may be refused, but it must return
+				conn.Send(frame.NewFrame(event.Header.Version, 0, &message.Options{}))
+				close(evSent)
+			})
 		}}
 	}
 	cc, sc, err := srv.BindAndInit(cl, context.Background(), v, 1)
@@ -184,8 +193,9 @@ func runC16ParkChild(res *lp.Result) {
 		closeDone := closeClient()
 		time.Sleep(200 * time.Millisecond)
 		close(evRelease)
+		waitFor("a Send made by an event handler while Close is under way does not return", evSent, 5*time.Second)
 		waitFor("Close does not return when it was called while an event handler was running", closeDone, 5*time.Second)
-	case 3:
+	case 3, 5:
 		if _, err := cc.Send(frame.NewFrame(v, 11, &message.Query{Query: "SELECT handler"})); err != nil {
 			res.Add(lp.Finding{Kind: "harness", What: "send failed", Input: id, Impl: err.Error()})
 			return
@@ -193,12 +203,21 @@ func runC16ParkChild(res *lp.Result) {
 		if !waitFor("request handler is not invoked for a request", rqEntered, 3*time.Second) {
 			return
 		}
-		closeDone := closeServerConn()
-		time.Sleep(200 * time.Millisecond)
+		var closeDone chan struct{}
+		if i == 5 {
+			closeDone = safely("Close of the server", func() { srv.Close() })
+		} else {
+			closeDone = closeServerConn()
+		}
+		time.Sleep(300 * time.Millisecond)
 		select {
 		case <-closeDone:
 			// the handler goroutine belongs to the connection: Close returning while it runs leaves it behind
-			viol("Close of the server connection returns while a request handler goroutine of that connection is still running (it survives the close)", "")
+			if i == 5 {
+				viol("Close of the server returns while a request handler goroutine of one of its connections is still running (it survives the close)", "")
+			} else {
+				viol("Close of the server connection returns while a request handler goroutine of that connection is still running (it survives the close)", "")
+			}
 		default:
 		}
 		close(rqRelease)
@@ -206,7 +225,7 @@ func runC16ParkChild(res *lp.Result) {
 	}
 	// afterwards: the closed side refuses sends; the client's pending request completes with an error once the client
 	// connection is closed (by itself or because its peer went away)
-	if i == 0 || i == 3 {
+	if i == 0 || i == 3 || i == 5 {
 		if err := func() (err error) {
 			defer func() {
 				if r := recover(); r != nil {
